@@ -152,6 +152,9 @@ type Pred struct {
 	Lit  *Val    `json:"lit,omitempty"`
 	List []Val   `json:"list,omitempty"`
 	Args []*Pred `json:"args,omitempty"`
+	// Rev renders a comparison with the literal on the left and the mirrored
+	// operator ('x' < da for da > 'x'); the meaning is unchanged
+	Rev bool `json:"rev,omitempty"`
 }
 
 func litSQL(v Val) string {
@@ -189,6 +192,12 @@ func (p *Pred) SQL() string {
 		return p.Dim + " IN (" + strings.Join(parts, ", ") + ")"
 	case "NOTLIKE":
 		return p.Dim + " NOT LIKE " + litSQL(*p.Lit)
+	}
+	if p.Rev {
+		mirror := map[string]string{"=": "=", "<>": "<>", "<": ">", "<=": ">=", ">": "<", ">=": "<="}
+		if m, ok := mirror[p.Op]; ok {
+			return litSQL(*p.Lit) + " " + m + " " + p.Dim
+		}
 	}
 	return p.Dim + " " + p.Op + " " + litSQL(*p.Lit)
 }
